@@ -85,9 +85,17 @@ def _make_scenario(sc):
             detsched.emit('Pull', i=k)
             return k
 
+    gates = sc.get('_gates')
+
     def work(x):
         detsched.emit('WStart', i=x)
         detsched.checkpoint('work')
+        if gates is not None:
+            # spec -> code replay: element x finishes when the behaviour says so
+            spins = 0
+            while not (gates.get(x) or gates.get('*')) and spins < 2500:
+                detsched.checkpoint('gate')
+                spins += 1
         if x in fail:
             detsched.emit('WFinish', i=x, kind='err')
             raise ElemError(x)
@@ -185,18 +193,81 @@ def make_strategy(kind, seed):
     return detsched.RandomStrategy(seed, stay=0.5 + 0.4 * ((seed * 7919) % 10) / 10.0)
 
 
+ROLE_EVENT = {
+    'FeederPull': ('feeder', 'Pull'), 'FeederSrcEnd': ('feeder', 'SrcEnd'), 'FeederSrcRaise': ('feeder', 'SrcRaise'),
+    'FeederCheckStop': ('feeder', None), 'FeederPreFail': ('feeder', 'PreFail'), 'FeederSubmit': ('feeder', 'Submit'),
+    'FeederPut': ('feeder', 'Put'), 'FeederPutEnd': ('feeder', 'Put'), 'FeederPutExc': ('feeder', 'Put'),
+    'WorkerTake': ('worker', None), 'WorkerSetRunning': ('worker', None), 'WorkerSkip': ('worker', None),
+    'WorkerStart': ('worker', 'WStart'), 'WorkerFinish': ('worker', 'WFinish'),
+    'ConsStart': ('cons', 'Next'), 'ConsNext': ('cons', 'Next'), 'ConsGet': ('cons', 'Get'), 'ConsAwait': ('cons', 'Await'),
+    'ConsYield': ('cons', 'Yield'), 'ConsBreak': ('cons', 'Break'), 'ConsSetStop': ('cons', None),
+    'FinDrainOne': ('cons', 'Get'), 'FinCancel': ('cons', 'Cancel'), 'FinDrainEmpty': ('cons', None),
+    'FinJoin': ('cons', 'Closed'), 'ExecShutdown': ('cons', 'ExecShut'),
+}
+
+
+def behaviour_to_item(beh):
+    """A TLC behaviour of FifoStream ([(action, state), ...], Mode sync) -> scenario + steering script."""
+    p = beh[0][1]['p']
+    if p.get('mode') != 'sync':
+        return None
+    script, brk, prev = [], None, beh[0][1]
+    for act, st in beh[1:]:
+        if act not in ROLE_EVENT:
+            prev = st
+            continue
+        role, ev = ROLE_EVENT[act]
+        step = {'role': role, 'ev': ev, 'act': act}
+        if act == 'WorkerFinish':
+            fin = [i + 1 for i, (a, b) in enumerate(zip(prev['fut'], st['fut'])) if a == 'running' and b in ('ok', 'err')]
+            if fin:
+                step['open'] = fin[0]
+        if act == 'ConsBreak':
+            brk = len(st['out'])
+        script.append(step)
+        prev = st
+    if any(a == 'ConsNeverStarted' for a, _ in beh):
+        return None
+    sc = {'n': p['n'], 'cap': p['cap'], 'conc': p['conc'], 'retexc': p['retexc'], 'fail': list(p['fail']),
+          'prefail': list(p['prefail']), 'srcfail': p['srcfail'], 'srcbase': p['srcbase'],
+          'maybreak': p['maybreak'], 'mode': 'sync', 'variant': 'fifo', 'retx': True, 'break_at': brk,
+          'usepre': bool(p['prefail'])}
+    if brk == 0:
+        return None
+    return {'sc': sc, 'script': script}
+
+
+def _role_of(t):
+    if t.tid == 0:
+        return 'cons'
+    if 'feeder' in t.name or t.name == 'parmapper':
+        return 'feeder'
+    return 'worker'
+
+
 def run_job(job):
     from mbt import detsched
     _install_wrappers()
     traces, hangs, n_exec = [], [], 0
     for item in job['items']:
         sc, seed, strat = item['sc'], item['seed'], item.get('strategy', 'random')
+        guided = None
+        if item.get('script') is not None:
+            gates = {}
+            sc = dict(sc, _gates=gates)
+            guided = detsched.GuidedStrategy(item['script'], _role_of, gates, seed=seed)
         root = _make_scenario(sc)
-        res = detsched.run(root, make_strategy(strat, seed), max_steps=50000, stall_timeout=60)
+        res = detsched.run(root, guided or make_strategy(strat, seed), max_steps=80000, stall_timeout=60)
+        sc = {k: v for k, v in sc.items() if k != '_gates'}
         n_exec += 1
         evs = strip(res.trace)
         rec = {'id': item['id'], 'p': header(sc), 'ev': evs, 'sc': sc, 'seed': seed, 'strategy': strat,
                'status': res.status}
+        if guided is not None:
+            want = [s['ev'] for s in item['script'] if s.get('ev')]
+            got = [e['ev'] for e in evs]
+            rec['l2'] = {'steps': len(want), 'followed': guided.followed, 'skipped': guided.skipped,
+                         'exact': got[:len(want)] == want}
         if res.status != 'ok' or res.exc is not None:
             rec['detail'] = res.detail
             rec['waitmap'] = res.waitmap
